@@ -350,8 +350,10 @@ def r5_pooled_connection(ctx, res):
     rets = [r for r in cv.rows if r[0] == 'return']
     if not rets:
         res.find(key, cv.loc(), 'connect() has no return')
+    stored = {x[1][len('pool[wn.config.database_path] = '):] for x in cv.rows if x[0] == 'store' and x[1].startswith('pool[wn.config.database_path] = ')}
     for r in rets:
-        if r[1] != 'pool[wn.config.database_path]':
+        # the pooled object itself, or - on the path that has just created and stored it - that very object
+        if r[1] != 'pool[wn.config.database_path]' and not (r[1] in stored and 'wn.config.database_path not in pool' in r[2]):
             res.find(key, cv.loc(r[4]), f'connect() returns `{r[1][:80]}` instead of the pooled connection: callers may get a private '
                                         f'connection outside the transaction')
     key = 'connect-store-guarded'
